@@ -43,7 +43,8 @@ def main():
             checks.append(a[1].upper()); a = a[2:]
         else:
             a = a[1:]
-    name = "%s_%s" % (pid.lower(), os.path.basename(src.rstrip("/")))
+    base = os.path.basename(src.rstrip("/"))
+    name = base if base.startswith(pid.lower() + "_") else "%s_%s" % (pid.lower(), base)
     dst = os.path.join(V, "seeded", name)
     meta = {"property": pid, "source": "independent sub-agent given only the property text and a scratch worktree", "ran": []}
     notes = os.path.join(src, "NOTES.md")
@@ -92,7 +93,7 @@ def main():
         drop(wt)
         drop(clean)
     os.makedirs(dst, exist_ok=True)
-    for fn in os.listdir(src):
+    for fn in ([] if os.path.abspath(src) == os.path.abspath(dst) else os.listdir(src)):
         p = os.path.join(src, fn)
         if os.path.isfile(p) and os.path.getsize(p) < 2 << 20:
             shutil.copy(p, os.path.join(dst, fn))
@@ -102,7 +103,12 @@ def main():
     mp = os.path.join(dst, "meta.json")
     if os.path.exists(mp):
         old = json.load(open(mp))
-        oc = old.get("checks", {})
+        # keep the earlier verdicts: a MISSED followed by a caught (after the check was extended) is part of the record
+        hist = old.get("history", [])
+        if old.get("checks"):
+            hist.append({"earlier_run": old["checks"]})
+        meta["history"] = hist
+        oc = dict(old.get("checks", {}))
         oc.update(meta.get("checks", {}))
         meta["checks"] = oc
     json.dump(meta, open(mp, "w"), indent=1)
